@@ -13,8 +13,9 @@ from harness.common import drive, seed
 from harness.methods import quiet
 
 BASES = [(6, 0, False), (6, 2, False), (9, 2, False), (6, 1, True), (6, 3, True), (9, 2, True)]
-# (regularisation, model id): 0 = None, 50 = 'pos', < 100 can be honoured, >= 100 raise;  numerically equal spellings share an id
-REGS = [(None, 0), ("pos", 50), (("L2", 1), 1), (("L2", 1.0), 1), (("L2", 5.0), 2), (("diff", 2.0), 3), (("SVD", 0.3), 4), (("SVD", 0), 5),
+# (regularisation, model id): 0 = None, 5..9 = zero strength (no regularisation, repair F61), 50 = 'pos', < 100 can be honoured, >= 100 raise;
+# numerically equal spellings share an id
+REGS = [(None, 0), ("pos", 50), (("L2", 1), 1), (("L2", 1.0), 1), (("L2", 5.0), 2), (("diff", 2.0), 3), (("SVD", 0.3), 4), (("SVD", 0), 5), (("L2", 0), 6), (("diff", 0.0), 7),
         ("SVD", 100), (("l2", 5.0), 101), (("SVD", 1.5), 102), ("bogus", 103), (7.0, 104), (("L2",), 105), (("Tikhonov", 0), 106), (("l2", 0.0), 107)]
 
 
